@@ -114,6 +114,13 @@ def abs_apply(a, st):
         return a.clone(elems=None, indexable=False, keys=False)
     if op == 'local_shuffle':
         return a.clone(elems=None, indexable=False, findexable=False, keys=False)
+    if op == 'tile':
+        if not a.sized:
+            return None
+        r = st.get('reps', 2)
+        e = None if a.elems is None else a.elems * r
+        # keys repeat: everything that looks keys up refuses loudly
+        return a.clone(elems=e, n=a.n * r, keys=False, items=False)
     if op == 'cycle':
         if not a.sized or not a.n:
             return None
